@@ -268,6 +268,45 @@ func CorpusHistories(scratch string, names map[string]bool) ([]*History, []strin
 			g.Params.MaxValidatorCnt = 2
 			g.Params.MinVotingPeriodBlocks, g.Params.MaxVotingPeriodBlocks, g.Params.LazyApplyingBlocks = 1, 3, 1
 		}},
+		// the unbonding period changes by governance between two releases: each release is locked for the
+		// period in force at ITS release
+		{"unbonding-period-changed-by-governance", 1, 2, 20, func(s *Sim, h int64) []*TxSpec {
+			u := s.User(0)
+			mine := func(power int64) *TxSpec {
+				for _, st := range s.stakes {
+					if string(st.From) == string(u.Addr) && st.Power == power {
+						return s.TxUnstake(u, st.To, st.Hash)
+					}
+				}
+				return nil
+			}
+			switch h {
+			case 2:
+				return SeqNonce([]*TxSpec{s.TxStake(u, s.Val(0).Addr, 3), s.TxStake(u, s.Val(0).Addr, 4)})
+			case 3:
+				np := s.params
+				np.LazyRewardBlocks, np.Version = 9, 2
+				t := s.TxProposal(s.Val(0), 4, 1, 6)
+				t.Prop.Options = []OptSpec{{Raw: np.JSON(true), Params: &np}}
+				if r := mine(3); r != nil {
+					return []*TxSpec{t, r}
+				}
+				return []*TxSpec{t}
+			case 4:
+				if len(s.H.WatchH) > 0 {
+					return []*TxSpec{s.TxVote(s.Val(0), s.H.WatchH[len(s.H.WatchH)-1], 0)}
+				}
+			case 8:
+				if r := mine(4); r != nil {
+					return []*TxSpec{r}
+				}
+			}
+			return nil
+		}, func(g *Genesis) {
+			easyParams(g)
+			g.Params.LazyRewardBlocks = 2
+			g.Params.MinVotingPeriodBlocks, g.Params.MaxVotingPeriodBlocks, g.Params.LazyApplyingBlocks = 1, 3, 1
+		}},
 		// downtime: with window 10 and minimum 8 the third miss inside the window (blocks 4, 6, 8) is the
 		// one that takes the validator below the minimum: it must lose all stake in that very block
 		{"downtime-at-exact-threshold", 3, 2, 14, func(s *Sim, h int64) []*TxSpec {
